@@ -80,6 +80,7 @@ def first_run(ctx: Ctx) -> None:
     rule = "R-C06-FIRST"
     f = ctx.func("repid.job.Job._construct_parameters")
     dc = [n for n in ast.walk(f.node) if isinstance(n, ast.Call) and isinstance(n.func, ast.Attribute) and n.func.attr == "DELAY_CLASS"]
+    dc = [n for n in dc if C.utext(f, n.func).endswith("PARAMETERS_CLASS.DELAY_CLASS")]
     ctx.require(len(dc) == 1, f"{f.qualname}: DELAY_CLASS(...) construction not found")
     for kwname, src in (("delay_until", "self.deferred_until"), ("defer_by", "self.deferred_by"), ("cron", "self.cron")):
         v = C.kw(dc[0], kwname)
@@ -110,12 +111,12 @@ def first_run(ctx: Ctx) -> None:
 
     r = flow.reach_under(g, env(True, True), flow.NORMAL_KINDS)
     got = [n for n in rets if n.id in r]
-    ok = len(got) == 1 and (dotted(got[0].ast.value) or "").endswith("delay.delay_until")
+    ok = len(got) == 1 and C.utext(f, got[0].ast.value).endswith("delay.delay_until")
     ctx.check(ok, rule, f, "delay_until still ahead -> returned", "the first run honours deferred_until",
               f"compute_next_execution_time with delay_until ahead of now returns {[unparse(n.ast.value) for n in got]} instead of delay_until",
               instance="delay_until ahead")
     r = flow.reach_under(g, env(True, False), flow.NORMAL_KINDS)
-    got = [n for n in rets if n.id in r and (dotted(n.ast.value) or "").endswith("delay.delay_until")]
+    got = [n for n in rets if n.id in r and C.utext(f, n.ast.value).endswith("delay.delay_until")]
     ctx.check(not got, rule, f, "elapsed delay_until not returned", "an elapsed deferred_until does not schedule into the past",
               "compute_next_execution_time returns delay_until although it has already passed (the successor is scheduled in the past and the slot runs twice)",
               instance="delay_until elapsed")
